@@ -71,6 +71,7 @@ fn run_generated(run_idx: u64, run_seed: u64, profile: &str, steps: usize, journ
         stats: Default::default(),
     };
     let mut trace = Fnv::default();
+    let mut had_panic = false;
     for step in 0..cfg.steps {
         let op = {
             let mut g = Gen { rng: &mut gen_rng, cfg: &cfg };
@@ -80,6 +81,18 @@ fn run_generated(run_idx: u64, run_seed: u64, profile: &str, steps: usize, journ
         w.step = step;
         let so = exec(&mut w, &op);
         w.check_invariants(so.scribbled);
+        if so.outcome == "panic" {
+            had_panic = true;
+        }
+        if had_panic {
+            // C13: after a caught panic every handle stays usable and storage is still released
+            // exactly once — memory-safety / ledger observations from here on contradict it too
+            for v in w.viol.iter_mut() {
+                if !v.props.contains(&"C13") && (v.kind.starts_with("alloc:") || v.kind.starts_with("view-") || v.kind.starts_with("leak") || v.kind.starts_with("storage-") || v.kind == "value-mismatch") {
+                    v.props.push("C13");
+                }
+            }
+        }
         trace.str(op.str("op").unwrap_or(""));
         trace.str(so.outcome);
         if so.oob {
@@ -116,6 +129,13 @@ fn run_generated(run_idx: u64, run_seed: u64, profile: &str, steps: usize, journ
         res.drop_order = ids.clone();
         journal.line(&J::obj().set("op", "final_drops").set("order", J::Arr(ids.iter().map(|x| J::from(*x)).collect())).dump());
         w.finish(&ids);
+        if had_panic {
+            for v in w.viol.iter_mut() {
+                if !v.props.contains(&"C13") {
+                    v.props.push("C13");
+                }
+            }
+        }
     }
     trace.u64(w.abstract_hash());
     res.trace_hash = trace.0;
@@ -162,6 +182,13 @@ fn run_replay(rec: &J, want_digest: bool) -> RunResult {
         if so.outcome == "panic" {
             res.panics += 1;
         }
+        if res.panics > 0 {
+            for v in w.viol.iter_mut() {
+                if !v.props.contains(&"C13") && (v.kind.starts_with("alloc:") || v.kind.starts_with("view-") || v.kind.starts_with("leak") || v.kind.starts_with("storage-") || v.kind == "value-mismatch") {
+                    v.props.push("C13");
+                }
+            }
+        }
         if !w.viol.is_empty() {
             break;
         }
@@ -179,6 +206,13 @@ fn run_replay(rec: &J, want_digest: bool) -> RunResult {
             }
         }
         w.finish(&order);
+        if res.panics > 0 {
+            for v in w.viol.iter_mut() {
+                if !v.props.contains(&"C13") {
+                    v.props.push("C13");
+                }
+            }
+        }
     }
     res.violations = std::mem::take(&mut w.viol);
     res.probes = w.probes.clone();
